@@ -754,18 +754,35 @@ func verif_C11_rcptparams() {
 		}
 	}
 	assume(class != vUnspec)
-	in := "EHLO c\r\nMAIL FROM:<a@v>\r\nRCPT TO:<b@v> " + param + "\r\n"
+	// the recipient limit may have been reached by an earlier RCPT: a bad
+	// parameter is refused 5xx all the same (the statement knows no exception),
+	// a good line is then turned away for the limit, the backend not asked
+	full := nondetBool()
+	in := "EHLO c\r\nMAIL FROM:<a@v>\r\n"
+	k := 3
+	if full {
+		srv.MaxRecipients = 1
+		in += "RCPT TO:<first@v>\r\n"
+		k = 4
+	}
+	in += "RCPT TO:<b@v> " + param + "\r\n"
 	vc, _, _ := verifServe(srv, []byte(in), io.EOF)
 	reps, wf := verifParseReplies(vc.out)
-	verifAssert(wf && len(reps) == 4 && lg.lines == 0, "C11.rcptparam-replies")
-	if !wf || len(reps) != 4 {
+	verifAssert(wf && len(reps) == k+1 && lg.lines == 0, "C11.rcptparam-replies")
+	if !wf || len(reps) != k+1 {
 		return
 	}
+	reps[3] = reps[k]
 	ri := be.find("Rcpt", "b@v")
-	verifObserve("c11r", param, class, reps[3].code, ri >= 0)
+	verifObserve("c11r", param, class, full, reps[3].code, ri >= 0)
 	if class == vInvalid {
 		verifReach("C11.rcptparam-invalid")
 		verifAssert(reps[3].code/100 == 5 && ri < 0, "C11.bad-rcpt-parameter-refused-backend-not-called")
+		return
+	}
+	if full {
+		verifReach("C11.rcptparam-valid-over-the-limit")
+		verifAssert(reps[3].code == 452 && ri < 0, "C11.good-rcpt-over-the-limit-452-backend-not-called")
 		return
 	}
 	verifReach("C11.rcptparam-valid")
